@@ -18,6 +18,8 @@ import JV.Proofs.Utf8
 import JV.Proofs.JsonParserNumber
 import JV.Proofs.JsonParserDepth
 import JV.Proofs.JsonParserString
+import JV.Proofs.JsonParserRefine
+import JV.Proofs.JsonParserSoundScalar
 namespace JV.Props.C02
 open JV Spec.Rfc8259
 
@@ -114,6 +116,115 @@ example : (run ⟨9, true, false⟩ [91, 49, 47, 42, 32, 97, 42, 42, 47, 93]).er
 example : (run ⟨9, false, false⟩ [48, 49]).err = some eLeadingZero := by decide                               -- 01
 example : (run ⟨9, false, false⟩ [34, 92, 117, 100, 56, 51, 100, 92, 117, 100, 101, 48, 48, 34]).evs = [Ev.str [240, 159, 152, 128] false] := by decide
 end ParserModel
+
+/-! ### refinement, completeness direction: the parser model accepts EVERY text the RFC 8259 reference accepts and reports the
+    value the reference assigns (proof: Proofs/JsonParserRefineWs, -Num, -Str, JsonParserRefine — forward simulation by
+    induction on the reference parser's recursion, for all inputs) -/
+section ParserRefinement
+open Model.JsonParser
+
+/-- the visitor calls a value of the reference stands for, in document order: `null` ↦ `[null]`, `bool b` ↦ `[bool b]`,
+    `num lit` ↦ `[frac lit]` if the literal contains '.', 'e' or 'E' and `[int lit]` otherwise, `str s` ↦ `[str s true]`,
+    `arr xs` ↦ `beginArray`, the events of the elements, `endArray`; `obj ms` ↦ `beginObject`, for each member (duplicates
+    kept, document order) `key k` and the events of its value, `endObject` -/
+abbrev eventsOf : JT → List Ev := Model.JsonParser.eventsOf
+
+/-- forgets the `noesc` tag of a string event (whether the source text of the string had no backslash): the reference's
+    `JT.str` carries the decoded bytes only -/
+abbrev eraseNoesc : Ev → Ev := Ev.eraseNoesc
+
+/-- COMPLETENESS for whole documents, all inputs, every option setting of the parser: if the RFC 8259 reference (no comments,
+    no trailing commas, the parser's nesting limit) reads `bs` as the value `v`, then the parser model accepts `bs` (ends in
+    `done` without an error code) and the events it reported, in order, are exactly the events of `v` — up to the `noesc` tag of
+    string events, which `v` does not determine. Every byte string, every nesting, every escape, every `\r` placement. -/
+theorem parse_complete_any_options (cfg : Cfg) (bs : Bytes) (v : JT)
+    (h : parseText { comments := false, trailingComma := false, maxDepth := cfg.maxDepth } bs = some v) :
+    accepted (run cfg bs) = true ∧ (run cfg bs).evs.reverse.map eraseNoesc = eventsOf v :=
+  run_complete cfg bs v h
+
+/-- the same for the strict configuration (the reference flags are then exactly the parser's options) -/
+theorem parse_complete (cfg : Cfg) (bs : Bytes) (v : JT)
+    (h : parseText { comments := false, trailingComma := false, maxDepth := cfg.maxDepth } bs = some v)
+    (_hc : cfg.comments = false) (_ht : cfg.trailingComma = false) :
+    accepted (run cfg bs) = true ∧ (run cfg bs).evs.reverse.map eraseNoesc = eventsOf v :=
+  run_complete cfg bs v h
+
+/-- consequence: an accepted text is never refused, whatever the error code -/
+theorem parse_complete_no_error (cfg : Cfg) (bs : Bytes)
+    (h : (parseText { comments := false, trailingComma := false, maxDepth := cfg.maxDepth } bs).isSome = true) :
+    (run cfg bs).err = none := by
+  cases hv : parseText { comments := false, trailingComma := false, maxDepth := cfg.maxDepth } bs with
+  | none => simp [hv] at h
+  | some v =>
+    have := (run_complete cfg bs v hv).1
+    simp only [accepted, Bool.and_eq_true, Option.isNone_iff_eq_none] at this
+    exact this.1
+
+-- non-vacuity: the hypothesis holds for the nested document {"a":[1,"x\n",null]} (the escape \n is the two bytes 92 110) …
+example : (parseText { comments := false, trailingComma := false, maxDepth := 8 }
+    [123, 34, 97, 34, 58, 91, 49, 44, 34, 120, 92, 110, 34, 44, 110, 117, 108, 108, 93, 125]).isSome = true := by decide
+-- … and the conclusion, evaluated on the model for that document:
+example : (run ⟨8, false, false⟩ [123, 34, 97, 34, 58, 91, 49, 44, 34, 120, 92, 110, 34, 44, 110, 117, 108, 108, 93, 125]).evs.reverse =
+    [.beginObject, .key [97], .beginArray, .int [49], .str [120, 10] false, .null, .endArray, .endObject] := by decide
+-- with white space (including a CR before the closing bracket and at the very end) and a fraction
+example : (parseText { comments := false, trailingComma := false, maxDepth := 8 }
+    [32, 91, 13, 49, 46, 53, 13, 93, 13]).isSome = true := by decide
+example : (run ⟨8, false, false⟩ [32, 91, 13, 49, 46, 53, 13, 93, 13]).evs.reverse = [.beginArray, .frac [49, 46, 53], .endArray] := by decide
+
+/-- SOUNDNESS, for documents whose root is a literal or a number (the first character after the leading white space is none of
+    `"`, `[`, `{`), comments off, all inputs: whatever the parser model accepts, the RFC 8259 reference reads as a value, and (by
+    completeness) the events reported are the events of that value. So on these documents the model accepts EXACTLY the
+    texts of the grammar. Not covered: roots that are strings, arrays or objects (for strings the converse fails as stated:
+    the parser accepts a lone low surrogate escape and a high surrogate followed by any `\uXXXX`, the reference gives those
+    texts no value — DESIGN.md, C02 exclusions). -/
+theorem parse_sound_scalars (cfg : Cfg) (bs : Bytes) (hc : cfg.comments = false)
+    (hroot : ∀ c r, bs.dropWhile isWs = c :: r → c ≠ 34 ∧ c ≠ 91 ∧ c ≠ 123)
+    (h : accepted (run cfg bs) = true) :
+    ∃ v, parseText { comments := false, trailingComma := false, maxDepth := cfg.maxDepth } bs = some v ∧
+      (run cfg bs).evs.reverse.map eraseNoesc = eventsOf v := by
+  obtain ⟨v, hv⟩ := run_sound_scalar cfg hc bs hroot h
+  exact ⟨v, hv, (run_complete cfg bs v hv).2⟩
+
+/-- the two directions together on those documents -/
+theorem parse_exact_scalars (cfg : Cfg) (bs : Bytes) (hc : cfg.comments = false)
+    (hroot : ∀ c r, bs.dropWhile isWs = c :: r → c ≠ 34 ∧ c ≠ 91 ∧ c ≠ 123) :
+    accepted (run cfg bs) = true ↔
+      (parseText { comments := false, trailingComma := false, maxDepth := cfg.maxDepth } bs).isSome = true := by
+  constructor
+  · intro h
+    obtain ⟨v, hv⟩ := run_sound_scalar cfg hc bs hroot h
+    simp [hv]
+  · intro h
+    cases hv : parseText { comments := false, trailingComma := false, maxDepth := cfg.maxDepth } bs with
+    | none => simp [hv] at h
+    | some v => exact (run_complete cfg bs v hv).1
+
+/-- SOUNDNESS also for a root string, provided the text contains no `\u` escape (no backslash followed by `u`; plain characters,
+    raw UTF-8 and the eight two-character escapes are all covered): whatever the model accepts (comments off) among the documents
+    whose root is a literal, a number or such a string, the reference reads as a value, with the reported events those of the
+    value. Strings with `\u` escapes are left out because the converse is false for some of them (lone low surrogate, high
+    surrogate followed by a non-low `\uXXXX`: accepted by the parser, no value in the reference). -/
+theorem parse_sound_scalars_and_plain_strings (cfg : Cfg) (bs : Bytes) (hc : cfg.comments = false)
+    (hroot : ∀ c r, bs.dropWhile isWs = c :: r → c ≠ 91 ∧ c ≠ 123)
+    (hnu : ∀ pre post, bs ≠ pre ++ 92 :: 117 :: post)
+    (h : accepted (run cfg bs) = true) :
+    ∃ v, parseText { comments := false, trailingComma := false, maxDepth := cfg.maxDepth } bs = some v ∧
+      (run cfg bs).evs.reverse.map eraseNoesc = eventsOf v := by
+  obtain ⟨v, hv⟩ := run_sound_scalar_str cfg hc bs hroot hnu h
+  exact ⟨v, hv, (run_complete cfg bs v hv).2⟩
+
+-- the model refuses what the grammar refuses: "01", "1.", "-", "tru", "nul l", "1 2"
+example : accepted (run ⟨8, false, false⟩ [48, 49]) = false := by decide
+example : accepted (run ⟨8, false, false⟩ [49, 46]) = false := by decide
+example : accepted (run ⟨8, false, false⟩ [45]) = false := by decide
+example : accepted (run ⟨8, false, false⟩ [116, 114, 117]) = false := by decide
+example : accepted (run ⟨8, false, false⟩ [49, 32, 50]) = false := by decide
+-- … and the two surrogate texts on which parser and reference differ (accepted / no value): "\\udc00" and "\\ud800\\u0041"
+example : accepted (run ⟨8, false, false⟩ [34, 92, 117, 100, 99, 48, 48, 34]) = true ∧
+    (parseText { comments := false, trailingComma := false, maxDepth := 8 } [34, 92, 117, 100, 99, 48, 48, 34]).isSome = false := by decide
+example : accepted (run ⟨8, false, false⟩ [34, 92, 117, 100, 56, 48, 48, 92, 117, 48, 48, 52, 49, 34]) = true ∧
+    (parseText { comments := false, trailingComma := false, maxDepth := 8 } [34, 92, 117, 100, 56, 48, 48, 92, 117, 48, 48, 52, 49, 34]).isSome = false := by decide
+end ParserRefinement
 
 /-! ### the option flags relax exactly one construct each (kernel-evaluated instances, all four flag pairs) -/
 def fl (c t : Bool) : Flags := { comments := c, trailingComma := t, maxDepth := 1024 }
